@@ -274,6 +274,7 @@ impl NetNode {
             heartbeat: self.cfg.consensus.heartbeat_interval,
             social_stake: self.cfg.consensus.default_social_stake,
             loading_completed: self.cfg.blockchain.initial_loading_completed,
+            prune: self.cfg.consensus.prune_after_blocks,
         }
     }
 
